@@ -76,7 +76,7 @@ pub struct Reflex {
     pub seq: HashMap<u16, u64>,
     pub held: Vec<Held>,
     pub confirm: HashMap<u16, u64>,
-    pub_remaining: HashMap<u16, Option<u64>>,
+    pub pub_remaining: HashMap<u16, Option<u64>>,
     pub publishes_completed: u64,
     /// Answers to Basic.Get per channel: None = GetEmpty, Some((msg, body partition)).
     pub get_answers: HashMap<u16, VecDeque<Option<(Msg, Option<Vec<usize>>)>>>,
